@@ -48,6 +48,15 @@ impl Ast {
             Ast::Bin(_, a, b) => a.has_unit() || b.has_unit(),
         }
     }
+    /// `deg(...)` around a value that is already unitized (a unit function somewhere in its argument)
+    fn has_deg_of_unit(&self) -> bool {
+        match self {
+            Ast::Leaf(_) => false,
+            Ast::Neg(a) | Ast::Rad(a) => a.has_deg_of_unit(),
+            Ast::Deg(a) => a.has_unit() || a.has_deg_of_unit(),
+            Ast::Bin(_, a, b) => a.has_deg_of_unit() || b.has_deg_of_unit(),
+        }
+    }
     /// a bare (unit-less) term outside every unit function
     fn has_plain_outside(&self) -> bool {
         match self {
@@ -116,11 +125,10 @@ pub fn all_asts(max_size: usize, leaves: &[u8], units: bool) -> Vec<Ast> {
             if !matches!(a, Ast::Neg(_)) {
                 out.push(Ast::Neg(Box::new(a.clone())));
             }
-            if units && !a.has_unit() {
+            if units {
+                // (also around an argument that already holds a unit function: deg() of such a value would
+                // convert a second time / mix units and has to be refused, rad() leaves radians as they are)
                 out.push(Ast::Deg(Box::new(a.clone())));
-                out.push(Ast::Rad(Box::new(a.clone())));
-            }
-            if units && matches!(a, Ast::Deg(_)) {
                 out.push(Ast::Rad(Box::new(a.clone())));
             }
         }
@@ -184,7 +192,15 @@ pub enum Case {
     Expr { ast: Ast, tag: u8, sp: bool, quoted: bool, f32_target: bool },
     /// a literal with the option on vs off
     /// (with `radians`: the literal carries the `!radians` tag when the option is on - radians stay as they are)
-    Literal { text: String, f32_target: bool, #[serde(default)] radians: bool },
+    /// (with `degrees`: it carries `!degrees`; the value is then the plain value times pi/180)
+    Literal {
+        text: String,
+        f32_target: bool,
+        #[serde(default)]
+        radians: bool,
+        #[serde(default)]
+        degrees: bool,
+    },
     /// sexagesimal d:m[:s[.frac]] with sign and tag
     Sexa { neg: bool, d: u32, m: u32, s: Option<(u32, Option<u32>)>, tag: u8 },
     /// a sexagesimal literal inside a unit function next to another term: `f(A + S)` and `f(S + A)` must agree
@@ -214,7 +230,8 @@ impl Prop for C19 {
                 let doc = format!("{}{}\n", ["", "!degrees ", "!radians "][*tag as usize], scalar);
                 // expectation
                 let used_unit = ast.has_unit();
-                let mixed = *tag == 1 && used_unit && ast.has_plain_outside();
+                let twice = ast.has_deg_of_unit();
+                let mixed = (*tag == 1 && used_unit && ast.has_plain_outside()) || twice;
                 let mut want = ast.eval();
                 if *tag == 1 && !used_unit {
                     want *= K;
@@ -237,7 +254,11 @@ impl Prop for C19 {
                     Ok(Ok(x)) => {
                         v.outcome = 2;
                         if mixed {
-                            v.fail("mixed_units_accepted", format!("{}: mixes unit functions and bare terms under !degrees but evaluates to {:?}", what, x));
+                            if twice {
+                                v.fail("unit_function_applied_to_unitized_value", format!("{}: deg() around a value that already went through a unit function (converted twice / radians taken for degrees) evaluates to {:?}", what, x));
+                            } else {
+                                v.fail("mixed_units_accepted", format!("{}: mixes unit functions and bare terms under !degrees but evaluates to {:?}", what, x));
+                            }
                         } else if !used_unit && *tag != 1 && !*f32_target {
                             // pure arithmetic: the IEEE-754 result, bit for bit
                             if !same(x, want) {
@@ -249,7 +270,41 @@ impl Prop for C19 {
                     }
                 }
             }
-            Case::Literal { text, f32_target, radians } => {
+            Case::Literal { text, f32_target, radians, degrees } if *degrees => {
+                let _ = radians;
+                let doc = format!("{}\n", text);
+                let doc_on = format!("!degrees {}\n", text);
+                v.execs = 2;
+                v.compared = 1;
+                v.nontrivial = true;
+                let what = format!("{:?} requested as {} (tagged !degrees with the option on)", doc, if *f32_target { "f32" } else { "f64" });
+                let (off, on) = if *f32_target {
+                    (de_f32(&doc, false).map(|r| r.map(|x| x as f64)), de_f32(&doc_on, true).map(|r| r.map(|x| x as f64)))
+                } else {
+                    (de_f64(&doc, false), de_f64(&doc_on, true))
+                };
+                // the f64 value of the literal (an f32 target rounds the converted value, not the literal)
+                let plain64 = de_f64(&doc, false);
+                match (off, on, plain64) {
+                    (Err(p), _, _) | (_, Err(p), _) | (_, _, Err(p)) => v.fail("panic", format!("{}: {}", what, p)),
+                    (Ok(Ok(_)), Ok(Ok(b)), Ok(Ok(a64))) => {
+                        v.outcome = 1;
+                        let want = if *f32_target { ((a64 * K) as f32) as f64 } else { a64 * K };
+                        if !close(b, want, if *f32_target { 1e9 } else { 4.0 }) {
+                            v.fail("degrees_literal_not_converted_once", format!("{}: {:?} without the tag, {:?} with it, expected {:?}", what, a64, b, want));
+                        }
+                    }
+                    (Ok(Ok(a)), Ok(Err(e)), _) => {
+                        v.outcome = 2;
+                        v.fail("plain_literal_rejected_with_option", format!("{}: {:?} with the option off but rejected with it on: {}", what, a, e));
+                    }
+                    _ => {
+                        v.outcome = 3;
+                        v.classes.push("not_a_literal_without_extension");
+                    }
+                }
+            }
+            Case::Literal { text, f32_target, radians, .. } => {
                 let doc = format!("{}\n", text);
                 let doc_on = if *radians { format!("!radians {}\n", text) } else { doc.clone() };
                 v.execs = 2;
@@ -288,7 +343,8 @@ impl Prop for C19 {
                     secs = *ss as f64;
                     if let Some(f) = frac {
                         text.push_str(&format!(".{}", f));
-                        secs += format!("0.{}", f).parse::<f64>().unwrap();
+                        // the seconds field is one decimal number
+                        secs = format!("{}.{}", ss, f).parse::<f64>().unwrap();
                     }
                 }
                 let doc = format!("{}{}\n", ["", "!degrees ", "!radians "][*tag as usize], quoted(&text));
@@ -311,6 +367,9 @@ impl Prop for C19 {
                             v.fail("sexagesimal_out_of_range_accepted", format!("{:?}: minutes / seconds out of range but evaluates to {:?}", doc, x));
                         } else if !close(x, want, 8.0) {
                             v.fail("sexagesimal_result_differs", format!("{:?}: evaluates to {:?}, expected {:?}", doc, x, want));
+                        } else if *tag == 0 && *d == 0 && *m == 0 && !same(x, want) {
+                            // 0:0:S is S seconds: the value of the decimal number S, correctly rounded
+                            v.fail("sexagesimal_seconds_not_exact", format!("{:?}: evaluates to {:?}, the seconds field is the decimal number {:?}", doc, x, want));
                         }
                     }
                 }
@@ -335,7 +394,8 @@ impl Prop for C19 {
                         };
                         if !same_r {
                             v.fail("sexagesimal_depends_on_position", format!("{:?} gives {:?} but {:?} gives {:?}: the meaning of a sexagesimal literal inside a unit function must not depend on what precedes it", d1, r1, d2, r2));
-                        } else if *outer_deg {
+                        } else {
+                            // deg(d:m:s) and rad(d:m:s) are the angle d:m:s (degrees, minutes, seconds) in radians
                             // deg(d:m:s) is the angle in degrees, converted once
                             let parts: Vec<f64> = sexa.split(':').map(|x| x.parse::<f64>().unwrap_or(f64::NAN)).collect();
                             let degs = parts[0] + parts.get(1).copied().unwrap_or(0.0) / 60.0 + parts.get(2).copied().unwrap_or(0.0) / 3600.0;
@@ -415,7 +475,7 @@ impl Prop for C19 {
     fn key(&self, c: &Case, clause: &str) -> String {
         match c {
             Case::Expr { ast, tag, sp, quoted, f32_target } => format!("{}|{}{}|{}|{}{}", clause, ["", "!degrees ", "!radians "][*tag as usize], ast.render(*sp), if *quoted { "quoted" } else { "plain" }, if *f32_target { "f32" } else { "f64" }, ""),
-            Case::Literal { text, f32_target, radians } => format!("{}|literal {:?}|{}{}", clause, text, if *f32_target { "f32" } else { "f64" }, if *radians { "|!radians" } else { "" }),
+            Case::Literal { text, f32_target, radians, degrees } => format!("{}|literal {:?}|{}{}", clause, text, if *f32_target { "f32" } else { "f64" }, if *radians { "|!radians" } else if *degrees { "|!degrees" } else { "" }),
             Case::Sexa { neg, d, m, s, tag } => format!("{}|sexagesimal neg={} {}:{}:{:?}|tag={}", clause, neg, d, m, s, tag),
             Case::SexaCtx { outer_deg, other, sexa } => format!("{}|{}({} + {})", clause, if *outer_deg { "deg" } else { "rad" }, SEXA_OTHERS[*other as usize], sexa),
             Case::Raw { text } => format!("{}|raw {:?}", clause, text.chars().take(40).collect::<String>()),
@@ -501,7 +561,7 @@ pub fn run(ctx: &Ctx) -> i32 {
     for neg in [false, true] {
         for d in [0u32, 1, 8, 12, 359, 100000] {
             for m in [0u32, 1, 30, 59, 60, 99] {
-                for s in [None, Some((0u32, None)), Some((30, None)), Some((59, Some(9u32))), Some((53, Some(2))), Some((60, None)), Some((30, Some(123456789)))] {
+                for s in [None, Some((0u32, None)), Some((30, None)), Some((59, Some(9u32))), Some((53, Some(2))), Some((60, None)), Some((30, Some(123456789))), Some((1, Some(14))), Some((10, Some(842835))), Some((0, Some(999999999)))] {
                     for tag in 0..3u8 {
                         cases.push(Case::Sexa { neg, d, m, s, tag });
                     }
@@ -520,8 +580,9 @@ pub fn run(ctx: &Ctx) -> i32 {
     for t in literal_corpus(ctx.tier == Tier::Thorough) {
         for f32_target in [false, true] {
             for radians in [false, true] {
-                cases.push(Case::Literal { text: t.clone(), f32_target, radians });
+                cases.push(Case::Literal { text: t.clone(), f32_target, radians, degrees: false });
             }
+            cases.push(Case::Literal { text: t.clone(), f32_target, radians: false, degrees: true });
         }
     }
     let mut acc = run_list(&p, &cases);
